@@ -452,6 +452,8 @@ def _r3(repo, L, m, ba):
                     okc = False
     L.check(okc, "R3", cro.short, "every contig still shared is cut", "not every still-shared contig is cut: it stays whole in two results (duplicated)", cro.loc())
     src = [norm(n.value) for n in walk_shallow(cro.node) if isinstance(n, ast.Assign) and loops and is_name(n.targets[0], norm(loops[0].iter).split(".")[0])]
+    if not src and loops and isinstance(loops[0].iter, ast.Call) and isinstance(loops[0].iter.func, ast.Attribute):
+        src = [norm(loops[0].iter.func.value)]  # iterated directly, without a local
     L.check(src == ["self.fragments_found_more_than_once"], "R3", cro.short + ":source", "iterates the shared map", f"cut loop iterates {src}", cro.loc())
 
 
@@ -922,6 +924,8 @@ def _r6(repo, L, m, ba):
     L.check(okc, "R6", split.short, "each fused scaffold added to exactly one output assembly", whyc, split.loc())
     rets = [n for n in walk_shallow(split.node) if isinstance(n, ast.Return)]
     holders = {norm(c.func.value) for c in repo.calls_in(split) if isinstance(c.func, ast.Attribute) and c.func.attr == "setdefault"}
+    # a dict filled by subscript stores of newly made assemblies counts as well
+    holders |= {norm(t.value) for n in walk_shallow(split.node) if isinstance(n, ast.Assign) for t in n.targets if isinstance(t, ast.Subscript) and isinstance(n.value, ast.Call | ast.Name)}
     L.check(len(rets) == 1 and norm(rets[0].value) in holders, "R6", split.short + ":return", "all output assemblies returned", "not all output assemblies are returned", split.loc())
     # CLI writes every returned assembly
     wa = repo.try_func("write_assemblies", "pretext_to_asm")
